@@ -24,6 +24,20 @@ theorem program_order_helpers_first :
     RotoV.Gen.C14Emit.programOrder ∈ helperFirstOrders ∧ helperFirstOrders.all helpersFirst = true := by
   decide
 
+/-- T7's checker `helpersFirst` accepts exactly the six orders that put the
+three generated groups, each once, before the script's items — and for each of
+them, every well-formed program whose script items stand in a compilation order
+is laid out so that the positional condition of the item loop holds. -/
+theorem emission_ready_of_helpers_first (o : List EmitGroup) (ho : helpersFirst o = true)
+    (p : Prog) (h : progReady p = true) :
+    o ∈ helperFirstOrders ∧ lirReady (lowerProg p o) = true :=
+  ⟨(helpersFirst_iff o).1 ho, lirReady_of_progReady p o ((helpersFirst_iff o).1 ho) h⟩
+
+/-- non-vacuity: a drop function that calls a clone function, a constant using both, groups in another accepted order -/
+example : lirReady (lowerProg ⟨[⟨[]⟩], [⟨[(.clones, 0)]⟩], [], [⟨true, 0, [(.clones, 0)], [], []⟩]⟩
+    [.eqs, .drops, .clones, .items]) = true := by decide
+example : helpersFirst [.eqs, .drops, .clones, .items] = true ∧ helpersFirst [.eqs, .drops, .items] = false := by decide
+
 /-- For every program — any number of generated clone / drop / eq functions
 referring to each other in any way, any script items — that is well formed and
 whose script items stand in a compilation order (`progReady`: a body reads only
